@@ -197,6 +197,10 @@ func (w *vWorld) applyCred(q *vReq, cred map[string]interface{}) {
 		}
 		if strings.HasPrefix(variant, "chain1") {
 			q.Chains = [][]*x509.Certificate{{leaf}}
+		} else if variant == "inside_expired" || variant == "inside_notyet" {
+			// verified when the connection was made: at a moment inside the certificate's validity
+			q.Chains, _ = leaf.Verify(x509.VerifyOptions{Roots: w.pool, KeyUsages: []x509.ExtKeyUsage{x509.ExtKeyUsageClientAuth},
+				CurrentTime: leaf.NotBefore.Add(time.Minute)})
 		} else {
 			q.Chains = w.verifiedChains(leaf)
 		}
